@@ -246,13 +246,17 @@ def oracle(case, res, extra):
     allf = list(faults(case.qref))
     if len(allf) > 14 and not (extra or {}).get("all_faults"):
         allf = rng.sample(allf, 14)
-    for desc, d in allf:
+    for fi, (desc, d) in enumerate(allf):
         try:
             sch = schema(d)
         except Exception:
             res.stats["fault_rejected_by_schema"] += 1
             continue
-        st, r = try_compile(d)
+        # the faulty document is handed over in every shape that is verified (objects and plain dicts, with and without the wrapper)
+        fform = ("schema", "program", "dict", "rawdict", "rawprogram")[(case.seed + fi) % 5]
+        res.stats["fault_form_" + fform] += 1
+        desc = f"{desc} [input form: {fform}]"
+        st, r = try_compile(d, form=fform)
         res.stats["faults_injected"] += 1
         res.stats["evaluations"] += 1
         if st != "compilation":
